@@ -71,6 +71,16 @@ class DslProp(PropBase):
             from y0.dsl import Sum
             inner = gen.atom() if rng.random() < 0.8 else gen.expr(1)
             rs = rng.sample(gen.names, rng.randint(1, 4))
+            if gen.rich and rng.random() < 0.25:
+                # a joint over counterfactual variables: copies of one variable in different worlds, and/or a child
+                # whose intervention value is one of the summed variables
+                from y0.dsl import P, Variable
+                n1, n2, n3 = rng.sample(gen.names, 3)
+                a1, a2, a3 = Variable(n1), Variable(n2), Variable(n3)
+                ch = rng.choice([[a1 @ a3, a1 @ ~a3], [a1 @ a3, a1 @ ~a3, a2], [a1 @ a3, a2 @ a1], [a1 @ a3, a2 @ ~a1, a3 @ a2],
+                                 [a1 @ a2, a3 @ a2], [a1, +a1, a2], [a1 @ a3, a1 @ ~a3, a2 @ a1]])
+                inner = P(*ch)
+                rs = rng.choice([[n1], [n1, n2], [n1, n3], [n2], [n1, n2, n3]])
             c["a"] = GE.to_tree(Sum(inner, frozenset(V(n) for n in rs)))
         elif kind in ("chain_expand", "fraction_expand", "bayes_expand"):
             p = None
